@@ -86,21 +86,43 @@ Definition of_plan (distinct : bool) (p : plan) : tree :=
 
 Definition of_rows (rs : list row) : tree := L (map (fun r => L (map I r)) rs).
 
+Definition run_one (d : dialect) (lim : limiting) (off : option clause) (ordered distinct : bool)
+                   (nkey : nat) (pre : list row) : tree :=
+  let s := Sel lim off ordered distinct in
+  let p := which_form d s in
+  let rows := exec row row_eqb (key_eqb nkey) (fun l => l) p distinct pre in
+  L [of_plan distinct p;
+     if ordered then of_rows (if wrapped p then sort_rows rows else rows) else L []].
+
+Definition as_step (t : tree) : option (limiting * option clause) :=
+  match t with
+  | L [tl; toff] =>
+    match as_lim tl, as_off toff with Some l, Some o => Some (l, o) | _, _ => None end
+  | _ => None
+  end.
+
 (* input   L [I dialect; lim; off; I ordered; I distinct; I nkey; L rows-before-DISTINCT; _ ]
              (the last component - tables and query shape - is for the implementation only)
    output  L [plan; rows]   rows = L [] when the statement has no ORDER BY (nothing to compare);
-                            sorted when the plan is a wrapper whose outer SELECT has no ORDER BY *)
+                            sorted when the plan is a wrapper whose outer SELECT has no ORDER BY
+   cache history:
+   input   L [I 100; I dialect; L [L [lim; off]; ...]; I ordered; I distinct; I nkey; L rows; _ ]
+             statements of one structure executed one after the other through one compiled cache
+   output  L [L [plan; rows]; ...]   each step exactly what a fresh compilation gives for its values *)
 Definition run_case (t : tree) : tree :=
   match t with
+  | L [I 100; I d; tsteps; tord; tdis; tk; tpre; _] =>
+    match as_dialect d, as_list_of as_step tsteps, as_bool tord, as_bool tdis, as_nat tk,
+          as_list_of (as_list_of as_Z) tpre with
+    | Some d, Some steps, Some ordered, Some distinct, Some nkey, Some pre =>
+      L (map (fun st => run_one d (fst st) (snd st) ordered distinct nkey pre) steps)
+    | _, _, _, _, _, _ => bad_input
+    end
   | L [I d; tl; toff; tord; tdis; tk; tpre; _] =>
     match as_dialect d, as_lim tl, as_off toff, as_bool tord, as_bool tdis, as_nat tk,
           as_list_of (as_list_of as_Z) tpre with
     | Some d, Some lim, Some off, Some ordered, Some distinct, Some nkey, Some pre =>
-      let s := Sel lim off ordered distinct in
-      let p := which_form d s in
-      let rows := exec row row_eqb (key_eqb nkey) (fun l => l) p distinct pre in
-      L [of_plan distinct p;
-         if ordered then of_rows (if wrapped p then sort_rows rows else rows) else L []]
+      run_one d lim off ordered distinct nkey pre
     | _, _, _, _, _, _, _ => bad_input
     end
   | _ => bad_input
